@@ -43,6 +43,7 @@ class CaseResult:
         self.id = case["id"]
         self.impl = rec["impl"]
         self.M, self.V = common.split_model(rec["model"])
+        self.raw_model = rec["model"]
         self.runs = [l.split() for l in rec["model"] if l.startswith("R ")]
         self.inputs = rec.get("inputs", [])
         self.refused = None
